@@ -13,8 +13,8 @@
 (*   setword(p,w)     binary (non-DER) formats, thorough: DER too: at every *)
 (*                    position 2, 4 or 8 octets overwritten by the values   *)
 (*                    at which arithmetic on a length, count or offset      *)
-(*                    field goes wrong (0, -1, -4, -8, min, max; both byte  *)
-(*                    orders)                                               *)
+(*                    field goes wrong (0, -1, -4, -8, min, max, and the    *)
+(*                    too small 1, 2, 3, 6; both byte orders)               *)
 (*   line(i,r)        krb5.conf: every line replaced by / preceded by 11   *)
 (*                    structure-breaking lines                             *)
 (* "Did it panic" is an observation, not something a model decides; the    *)
